@@ -2176,4 +2176,50 @@ example : Gen.C14.cutMult 3 (some 5) true = 6 ∧ Gen.C14.cutMult (-3) none true
     Gen.C14.shifts ([0, 1 / 2] : List ℚ) 1 (1 / 10000000) = [1 / 4, 3 / 4] ∧
     Gen.C14.resolveFShift (some (1 / 2 : ℚ)) none none none ⟨1, 0, 0⟩ ⟨0, 1, 0⟩ .c = .ok ⟨1 / 2, 0, 0⟩ := by decide +kernel
 
+/-! ## statement audit: the new theorems instantiated with every hypothesis discharged -/
+section audit
+
+private def audAtoms : List (C04.Atom ℚ) :=
+  [⟨1, ⟨0, 0, 0⟩, []⟩, ⟨2, ⟨1 / 2, 1 / 2, 1 / 4⟩, [7]⟩, ⟨1, ⟨1 / 4, 0, 1 / 4 + 1 / 1000000000⟩, []⟩]
+
+-- `roundKey_close`
+example : |(1 / 4 + 1 / 1000000000 : ℚ) - 1 / 4| ≤ 1 / ((10 ^ 7 : ℕ) : ℚ) :=
+  roundKey_close 7 _ _ (by decide +kernel)
+-- `shift_between_planes_all_atoms`: three atoms in two layers (one atom 1e-9 off its layer), the offered shift 3/8
+example : ∃ p q : ℚ, (p, q) ∈ consec (withReplica (layerCoords 7 [0, 1 / 4, 1 / 4 + 1 / 1000000000]) 1 (1 / 10000000)) ∧ p < q ∧
+    ∀ x ∈ ([0, 1 / 4, 1 / 4 + 1 / 1000000000] : List ℚ), ∀ m : ℤ,
+      x + 3 / 8 + (m : ℚ) * 1 ≤ -((q - p) / 2 - 1 / ((10 ^ 7 : ℕ) : ℚ)) ∨
+      (q - p) / 2 - 1 / ((10 ^ 7 : ℕ) : ℚ) ≤ x + 3 / 8 + (m : ℚ) * 1 :=
+  shift_between_planes_all_atoms 7 [0, 1 / 4, 1 / 4 + 1 / 1000000000] 1 (1 / 10000000) 0 (by decide)
+    (by decide +kernel) (by norm_num) (by norm_num) (3 / 8) (by decide +kernel)
+-- `surface_cut_between_planes`: the same layers as atoms of a cubic rotated cell, 2 x 2 x 3 supercell (tuple multiplier along b)
+example : ∃ p q : ℚ, (p, q) ∈ consec (withReplica (layerCoords 7 (audAtoms.map (·.pos.z))) 1 (1 / 10000000)) ∧ p < q ∧
+    ∀ a' ∈ (surfaceAtoms ⟨exCubic, ⟨0, 0, 0⟩⟩ ⟨0, 2⟩ ⟨-1, 1⟩ ⟨0, 3⟩ Rat.floor ⟨0, 0, 3 / 8⟩ audAtoms).2, ∀ j : ℤ,
+      a'.pos.z - (j : ℚ) * 1 ≤ -((q - p) / 2 - 1 / ((10 ^ 7 : ℕ) : ℚ)) ∨
+      (q - p) / 2 - 1 / ((10 ^ 7 : ℕ) : ℚ) ≤ a'.pos.z - (j : ℚ) * 1 :=
+  surface_cut_between_planes ⟨exCubic, ⟨0, 0, 0⟩⟩ (by decide +kernel) ⟨0, 2⟩ ⟨-1, 1⟩ ⟨0, 3⟩ (by decide) (by decide) (by decide)
+    Rat.floor isFloor_ratFloor audAtoms (by decide) 7 (1 / 10000000) 1 0 (by norm_num) (by norm_num)
+    (by decide +kernel) (by decide +kernel) (by decide +kernel) (by decide +kernel) ⟨0, 0, 3 / 8⟩ (by decide +kernel)
+-- `surface_cut_between_planes_any`: cut vector a of a tilted cell whose b, c have no x component
+example : ∃ p q : ℚ, (p, q) ∈ consec (withReplica (layerCoords 7 ([⟨1, ⟨0, 0, 0⟩, []⟩, ⟨2, ⟨1 / 2, 1, 1⟩, []⟩].map
+      (fun a : C04.Atom ℚ => a.pos.get (cutIndex .a)))) 2 (1 / 10000000)) ∧ p < q ∧
+    ∀ a' ∈ (surfaceAtoms ⟨⟨⟨2, 1, 1⟩, ⟨0, 3, 0⟩, ⟨0, 1, 4⟩⟩, ⟨0, 0, 0⟩⟩ ⟨0, 2⟩ ⟨0, 1⟩ ⟨-1, 0⟩ Rat.floor ⟨3 / 4, 0, 0⟩
+        [⟨1, ⟨0, 0, 0⟩, []⟩, ⟨2, ⟨1 / 2, 1, 1⟩, []⟩]).2, ∀ j : ℤ,
+      a'.pos.get (cutIndex .a) - (j : ℚ) * 2 ≤ -((q - p) / 2 - 1 / ((10 ^ 7 : ℕ) : ℚ)) ∨
+      (q - p) / 2 - 1 / ((10 ^ 7 : ℕ) : ℚ) ≤ a'.pos.get (cutIndex .a) - (j : ℚ) * 2 :=
+  surface_cut_between_planes_any .a ⟨⟨⟨2, 1, 1⟩, ⟨0, 3, 0⟩, ⟨0, 1, 4⟩⟩, ⟨0, 0, 0⟩⟩ (by decide +kernel) ⟨0, 2⟩ ⟨0, 1⟩ ⟨-1, 0⟩
+    (by decide) (by decide) (by decide) Rat.floor isFloor_ratFloor [⟨1, ⟨0, 0, 0⟩, []⟩, ⟨2, ⟨1 / 2, 1, 1⟩, []⟩] (by decide)
+    7 (1 / 10000000) 2 0 (by norm_num) (by norm_num)
+    (by simp [Gen.C14.cutRefuses]) (by decide +kernel) (by decide +kernel) ⟨3 / 4, 0, 0⟩ (by decide +kernel)
+-- `cart_cross_of_icross_zero`: parallel integer vectors in a triclinic cell
+example : V3.cross (cart exTri ⟨1, 2, 3⟩) (cart exTri ⟨2, 4, 6⟩) = ⟨0, 0, 0⟩ :=
+  cart_cross_of_icross_zero exTri ⟨1, 2, 3⟩ ⟨2, 4, 6⟩ (by decide +kernel)
+-- `c16_normalOf_eq`: plane (0 0 2) of the triclinic cell, in-plane vectors a, b of the cell (num/den = 1/2)
+example : C16.normalOf exTri ⟨1, 0, 0⟩ ⟨0, 1, 0⟩ 1 = V3.smul (((1 : ℤ) : ℚ) / (2 : ℤ) * M3.det exTri) (C16.recipVector exTri 0 0 2) :=
+  c16_normalOf_eq exTri ⟨1, 0, 0⟩ ⟨0, 1, 0⟩ 1 1 2 0 0 2 (by norm_num) (by decide +kernel) (by decide +kernel)
+-- `c04_replicaPos_eq`: non-zero multipliers in the triclinic cell
+example : M3.det exTri ≠ 0 ∧ ((((⟨-1, 1⟩ : C04.Size).mult : Int) : ℚ)) ≠ 0 := by decide +kernel
+
+end audit
+
 end Atomman.C14
